@@ -118,8 +118,9 @@ impl Ctx {
             detail,
             sig,
         };
-        // keep the first occurrence of each clause only (the first violating event is what replay checks)
-        let k = v.key();
+        // keep the first occurrence of each clause only (the first violating event is what replay checks) -
+        // separately for instances of each open known finding and for everything else
+        let k = format!("{}|{}", v.key(), crate::findings::classify(&v).unwrap_or_default());
         let n = self.per_key.entry(k).or_insert(0);
         *n += 1;
         if *n == 1 && self.viol.len() < 64 {
